@@ -176,7 +176,26 @@ def template(src, flags):
                 continue
             L = LETTERS[:k]
             hdr = 'impl<%s> MaxEncodedLen for (%s%s)' % (', '.join('%s: MaxEncodedLen' % x for x in L), ', '.join(L), ',' if k == 1 else '')
-            out.append(G_TMPL.replace('$M', 'tuple_%d' % k).replace('$HDR', hdr).replace('$SRC', h).replace('$HINT', ''))
+            hint = ''
+            pre = ''
+            if k >= 5:
+                # k saturating additions of bounds that may themselves be usize::MAX: unguided, z3 splits 2^k cases
+                # (arity 9: 10 M rlimit units, arity 10 and up fail).  One ghost fact per statement -- "len is saturated or
+                # bounds the first i parts of every value" -- makes the proof linear in k.
+                ty = '(%s)' % ', '.join(L)
+                parts = ' '.join('if i == %d { v.%d.spec_enc().len() } else' % (i + 1, i) for i in range(k))
+                pre = ('pub open spec fn plen<%s>(v: %s, i: nat) -> nat\n    decreases i\n{ if i == 0 { 0 } else if i == 1 { v.0.spec_enc().len() } else { plen(v, (i - 1) as nat) + (%s { 0nat }) } }\n'
+                       % (', '.join('%s: Encode' % x for x in L), ty, parts))
+                hs = []
+                for i in range(k):
+                    hs.append('    //@ at after `len = len.saturating_add(%s::max_encoded_len());`' % L[i])
+                    if i == 0:
+                        hs.append('    //@+ proof { assert(len == usize::MAX || forall|v: %s| #[trigger] plen(v, 1) <= len); }' % ty)
+                    else:
+                        hs.append('    //@+ proof { if len != usize::MAX { assert forall|v: %s| #[trigger] plen(v, %d) <= len by { assert(plen(v, %d) == plen(v, %d) + v.%d.spec_enc().len()); } } }' % (ty, i + 1, i + 1, i, i))
+                hs.append('    //@+ proof { if len != usize::MAX { assert forall|v: %s| (#[trigger] v.spec_enc()).len() <= len by { reveal_with_fuel(plen, %d); assert(plen(v, %d) <= len); } } }' % (ty, k + 2, k))
+                hint = '\n'.join(hs)
+            out.append(G_TMPL.replace('$M', 'tuple_%d' % k).replace('$HDR', pre + hdr).replace('$SRC', h).replace('$HINT', hint))
             continue
         mname, hdr, hint = GENERIC[h]
         out.append(G_TMPL.replace('$M', mname).replace('$HDR', hdr).replace('$SRC', h).replace('$HINT', hint))
